@@ -30,9 +30,13 @@ type composeCase struct {
 type composeSpec struct {
 	entry   string                              // ShortKey of the composing function
 	desc    string                              // the stated combination
-	oracles map[string]func(fn *ssa.Function) [][]AV // ShortKey of callee -> outcomes
+	oracles map[string]func(fn *ssa.Function) oracleFunc // ShortKey of callee -> outcomes
 	cases   []composeCase
-	judge   func(ctx interface{}, st *State) string // "" = the path agrees with the stated combination
+	judge   func(it *Interp, ctx interface{}, st *State) string // "" = the path agrees with the stated combination
+	// terms: floats carry their rational function (interp_terms.go); paths that
+	// also branch on comparisons between such floats are judged too (the
+	// comparison is available to the judge as a fact)
+	terms bool
 }
 
 func boolOutcomes(n int) [][]AV {
@@ -47,18 +51,34 @@ func boolOutcomes(n int) [][]AV {
 	return out
 }
 
-func oracleBools(n int) func(fn *ssa.Function) [][]AV {
-	return func(*ssa.Function) [][]AV { return boolOutcomes(n) }
+func oracleBools(n int) func(fn *ssa.Function) oracleFunc {
+	return func(*ssa.Function) oracleFunc {
+		outs := boolOutcomes(n)
+		return func(*Interp, *State, []AV) [][]AV { return outs }
+	}
 }
 
 // oracleTop: one outcome, an unknown (non-opaque) value of the result type.
-func oracleTop(fn *ssa.Function) [][]AV {
+func oracleTop(fn *ssa.Function) oracleFunc {
 	res := fn.Signature.Results()
 	var o []AV
 	for i := 0; i < res.Len(); i++ {
 		o = append(o, topOf(res.At(i).Type(), false))
 	}
-	return [][]AV{o}
+	return func(*Interp, *State, []AV) [][]AV { return [][]AV{o} }
+}
+
+// oracleFresh: one outcome whose floats (and points) are fresh identified
+// unknowns, different for every call.
+func oracleFresh(fn *ssa.Function) oracleFunc {
+	res := fn.Signature.Results()
+	return func(it *Interp, s *State, _ []AV) [][]AV {
+		var o []AV
+		for i := 0; i < res.Len(); i++ {
+			o = append(o, it.freeValue(s, res.At(i).Type(), 0))
+		}
+		return [][]AV{o}
+	}
 }
 
 func exactBool(v AV) (bool, bool) {
@@ -69,11 +89,12 @@ func exactBool(v AV) (bool, bool) {
 	return b.T, true
 }
 
-func onlyOracleTrail(st *State) bool {
+func onlyOracleTrail(st *State, factsToo bool) bool {
 	for _, t := range st.trail {
-		if !strings.HasPrefix(t.Desc, "oracle ") {
-			return false
+		if strings.HasPrefix(t.Desc, "oracle ") || factsToo && t.Fact != nil && !t.Opq {
+			continue
 		}
+		return false
 	}
 	return true
 }
@@ -93,7 +114,8 @@ func ruleCompose(mk func(thorough bool) []composeSpec, floor int) ruleFunc {
 				c.R.Unknown("A-comp", sp.entry, "", "composing function not found")
 				continue
 			}
-			it.Oracles = map[*ssa.Function][][]AV{}
+			it.Oracles = map[*ssa.Function]oracleFunc{}
+			it.Terms = sp.terms
 			missing := ""
 			var okeys []string
 			for k := range sp.oracles {
@@ -143,14 +165,18 @@ func ruleCompose(mk func(thorough bool) []composeSpec, floor int) ruleFunc {
 							return
 						}
 					}
-					judged, skipped := 0, 0
+					judged, skipped, infeasible := 0, 0, 0
 					for _, st := range it.Finished {
-						if !onlyOracleTrail(st) {
+						if !onlyOracleTrail(st, sp.terms) {
 							skipped++
 							continue
 						}
+						if sp.terms && pathOrder(it, st, nil).infeasible() {
+							infeasible++ // the comparisons assumed on this path contradict each other
+							continue
+						}
 						judged++
-						if why := sp.judge(ctx, st); why != "" {
+						if why := sp.judge(it, ctx, st); why != "" {
 							var hist []string
 							for _, ev := range st.events {
 								var outs []string
@@ -167,7 +193,7 @@ func ruleCompose(mk func(thorough bool) []composeSpec, floor int) ruleFunc {
 						c.R.Unknown("A-comp", cons, pos, fmt.Sprintf("no finished path depends on the callees' answers alone (%d paths branch on other unknowns)", skipped))
 						return
 					}
-					c.R.OK("A-comp", cons, pos, fmt.Sprintf("%s: %d paths judged, %d not judged (branch on other unknowns)", sp.desc, judged, skipped))
+					c.R.OK("A-comp", cons, pos, fmt.Sprintf("%s: %d paths judged, %d infeasible, %d not judged (branch on other unknowns)", sp.desc, judged, infeasible, skipped))
 				}()
 			}
 		}
@@ -279,13 +305,13 @@ func planarContainsSpecs(thorough bool) []composeSpec {
 		{
 			entry: "planar.RingContains",
 			desc:  "true iff some edge of the implicitly closed ring reports the point on it, else the parity of the crossings over every edge (each consecutive pair and the closing pair last-first, each consulted exactly once)",
-			oracles: map[string]func(*ssa.Function) [][]AV{
+			oracles: map[string]func(*ssa.Function) oracleFunc{
 				"planar.rayIntersect": oracleBools(2),
 				"orb.(Bound).Contains": oracleBools(1),
 				"orb.(Ring).Bound":     oracleTop,
 			},
 			cases: ringCases,
-			judge: func(cx interface{}, st *State) string {
+			judge: func(_ *Interp, cx interface{}, st *State) string {
 				ctx := cx.(*containsCtx)
 				res, ok := exactBool(st.result[0])
 				if !ok {
@@ -351,9 +377,9 @@ func planarContainsSpecs(thorough bool) []composeSpec {
 		{
 			entry:   "planar.PolygonContains",
 			desc:    "true iff the outer ring contains the point and no hole does",
-			oracles: map[string]func(*ssa.Function) [][]AV{"planar.RingContains": oracleBools(1)},
+			oracles: map[string]func(*ssa.Function) oracleFunc{"planar.RingContains": oracleBools(1)},
 			cases:   polyCases,
-			judge: func(cx interface{}, st *State) string {
+			judge: func(_ *Interp, cx interface{}, st *State) string {
 				ctx := cx.(*containsCtx)
 				res, ok := exactBool(st.result[0])
 				if !ok {
@@ -396,9 +422,9 @@ func planarContainsSpecs(thorough bool) []composeSpec {
 		{
 			entry:   "planar.MultiPolygonContains",
 			desc:    "true iff some member polygon contains the point",
-			oracles: map[string]func(*ssa.Function) [][]AV{"planar.PolygonContains": oracleBools(1)},
+			oracles: map[string]func(*ssa.Function) oracleFunc{"planar.PolygonContains": oracleBools(1)},
 			cases:   mpolyCases,
-			judge: func(cx interface{}, st *State) string {
+			judge: func(_ *Interp, cx interface{}, st *State) string {
 				ctx := cx.(*containsCtx)
 				res, ok := exactBool(st.result[0])
 				if !ok {
@@ -428,4 +454,150 @@ func planarContainsSpecs(thorough bool) []composeSpec {
 			},
 		},
 	}
+}
+
+// ---------------------------------------------------------------------------
+// C06: Reverse is the reversal permutation (in place)
+
+type permCtx struct {
+	slice SliceV
+	ids   []string
+}
+
+func reverseSpecs(thorough bool) []composeSpec {
+	maxN := 6
+	if thorough {
+		maxN = 12
+	}
+	mk := func(entry, kind string) composeSpec {
+		var cases []composeCase
+		for n := 0; n <= maxN; n++ {
+			n := n
+			cases = append(cases, composeCase{fmt.Sprintf("%d vertices", n), func(it *Interp, s *State) ([]AV, interface{}) {
+				v := it.buildGeom(s, pts(kind, n)).(SliceV)
+				ctx := &permCtx{slice: v}
+				for _, e := range s.heap[v.Arr].(ArrV).Elems {
+					ctx.ids = append(ctx.ids, identString(e))
+				}
+				return []AV{v}, ctx
+			}})
+		}
+		return composeSpec{
+			entry: entry,
+			desc:  "after the call vertex i is the vertex that was at position n-1-i, for every i (so reversing twice is the identity)",
+			cases: cases,
+			judge: func(_ *Interp, cx interface{}, st *State) string {
+				ctx := cx.(*permCtx)
+				arr, ok := st.heap[ctx.slice.Arr].(ArrV)
+				if !ok || len(arr.Elems) != len(ctx.ids) {
+					return "the backing array changed shape"
+				}
+				n := len(ctx.ids)
+				for i, e := range arr.Elems {
+					if identString(e) != ctx.ids[n-1-i] {
+						at := "a value that was not in the input"
+						for j, id := range ctx.ids {
+							if id == identString(e) {
+								at = fmt.Sprintf("the vertex that was at position %d", j)
+							}
+						}
+						return fmt.Sprintf("position %d holds %s, want the vertex that was at position %d", i, at, n-1-i)
+					}
+				}
+				return ""
+			},
+		}
+	}
+	return []composeSpec{mk("orb.(LineString).Reverse", "LineString"), mk("orb.(Ring).Reverse", "Ring")}
+}
+
+// contentString renders an abstract geometry by structure and identities of
+// its coordinates, ignoring which heap cells hold it.
+func contentString(st *State, v AV) string {
+	switch x := v.(type) {
+	case SliceV:
+		if x.Nil {
+			return "nil"
+		}
+		arr, ok := st.heap[x.Arr].(ArrV)
+		if !ok || arr.Elems == nil || x.Hi > len(arr.Elems) {
+			return "?"
+		}
+		var parts []string
+		for _, e := range arr.Elems[x.Lo:x.Hi] {
+			parts = append(parts, contentString(st, e))
+		}
+		return "[" + strings.Join(parts, " ") + "]"
+	case IfaceV:
+		if x.Nil {
+			return "nil-interface"
+		}
+		if x.Typ == nil {
+			return "?"
+		}
+		if sl, ok := x.Val.(SliceV); ok && sl.Nil {
+			// orb.Clone answers a typed nil slice with the nil interface (its
+			// documented arms `if g == nil { return nil }`): the two are one value here
+			return "nil-interface"
+		}
+		return kindName(x.Typ) + ":" + contentString(st, x.Val)
+	case StructV:
+		var parts []string
+		for _, f := range x.Fields {
+			parts = append(parts, contentString(st, f))
+		}
+		return "{" + strings.Join(parts, " ") + "}"
+	}
+	return identString(v)
+}
+
+// C06: a clone has the content of the original (same kind, nesting, lengths,
+// and the very same coordinates in the same places).
+func cloneSpecs(thorough bool) []composeSpec {
+	kinds := []string{"Point", "MultiPoint", "LineString", "MultiLineString", "Ring", "Polygon", "MultiPolygon", "Collection", "Bound"}
+	var generic []composeCase
+	for _, h := range allHyps(kinds, thorough) {
+		h := h
+		generic = append(generic, composeCase{h.String(), func(it *Interp, s *State) ([]AV, interface{}) {
+			g := it.buildIface(s, h)
+			return []AV{g}, contentString(s, g)
+		}})
+	}
+	judge := func(_ *Interp, cx interface{}, st *State) string {
+		want := cx.(string)
+		if len(st.result) != 1 {
+			return "no result"
+		}
+		if got := contentString(st, st.result[0]); got != want {
+			return fmt.Sprintf("the clone's content is %s, the original's %s", got, want)
+		}
+		return ""
+	}
+	specs := []composeSpec{{
+		entry: "orb.Clone",
+		desc:  "the clone has the kind, nesting, lengths and coordinates of the original, each coordinate in its place",
+		cases: generic,
+		judge: judge,
+	}}
+	for _, k := range kinds {
+		if k == "Point" || k == "Bound" {
+			continue
+		}
+		k := k
+		var cases []composeCase
+		for _, h := range hypsOfKind(k, thorough) {
+			h := h
+			cases = append(cases, composeCase{h.String(), func(it *Interp, s *State) ([]AV, interface{}) {
+				v := it.buildGeom(s, h)
+				return []AV{v}, contentString(s, v)
+			}})
+		}
+		specs = append(specs, composeSpec{
+			entry: "orb.(" + k + ").Clone",
+			desc:  "the clone has the nesting, lengths and coordinates of the original, each coordinate in its place",
+			cases: cases,
+			judge: judge,
+		})
+	}
+	return specs
 }
